@@ -241,6 +241,10 @@ func updateChildren(client *dynamicclientset.ResourceClient, updateStrategy Chil
 
 	for name, obj := range desired {
 		if ssaOptions.Strategy == ApplyStrategyServerSideApply {
+			// We always claim everything we create or apply.
+			if metav1.GetControllerOf(obj) == nil {
+				obj.SetOwnerReferences(append(obj.GetOwnerReferences(), *MakeControllerRef(parent)))
+			}
 			data, err := json.Marshal(obj)
 			if err != nil {
 				errs = append(errs, err)
